@@ -29,6 +29,7 @@ fn prop_def(id: &str) -> Option<PropDef> {
         "C12" => PropDef { parts: props::c12::parts(), rule: props::c12::RULE, assumptions: props::c12::ASSUMPTIONS, literal: None },
         "C16" => PropDef { parts: props::c16::parts(), rule: props::c16::RULE, assumptions: props::c16::ASSUMPTIONS, literal: None },
         "C10" => PropDef { parts: props::c10::parts(), rule: props::c10::RULE, assumptions: props::c10::ASSUMPTIONS, literal: None },
+        "C18" => PropDef { parts: props::c18::parts(), rule: props::c18::RULE, assumptions: props::c18::ASSUMPTIONS, literal: None },
         _ => return None,
     })
 }
